@@ -138,7 +138,7 @@ def watch_continues(ctx):
                   "a failed target makes watch mode stop")
 
 
-@rule("C07.ERR-REACHES-EXIT", ["C07", "C10"], """in main the awaited shutdown of all actors follows the await of the engine on every path and precedes the `?` on the engine's result;
+@rule("C07.ERR-REACHES-EXIT", ["C07", "C10", "C11"], """in main the awaited shutdown of all actors follows the await of the engine on every path and precedes the `?` on the engine's result;
       main returns the block's result""", "K1", floor=2)
 def err_reaches_exit(ctx):
     r = ctx.r
@@ -160,7 +160,7 @@ def err_reaches_exit(ctx):
     eng = eng[0]
     shut = outermost_awaits([a for a in awaits(ma) if a.callee in f.bodies and a is not eng and is_shutdown(a.callee) and not (relays & f.cg.reach([a.callee], cross_spawn=False))])
     if not shut:
-        ctx.bad("main/shutdown", [site(ma, eng.into_bb)], "main never awaits the shutdown of the actors")
+        ctx.bad("main/shutdown", [site(ma, eng.into_bb)], "main never awaits the shutdown of the actors", props=["C07", "C10", "C11"])
         return
     sh = shut[0]
     after_eng = ma.reach_from(eng.ready_bb) | {eng.ready_bb}
@@ -168,23 +168,24 @@ def err_reaches_exit(ctx):
     rets = ma.return_blocks()
     avoid_reach = ma.reach_from(eng.ready_bb, avoid=(sh.into_bb,))
     skipped = [x for x in rets if x in avoid_reach]
-    ctx.check(not skipped, "main/shutdown-always", [site(ma, sh.into_bb)], "some path from the end of the engine run to the end of main skips the shutdown of the actors (e.g. the error path): spawned processes are left behind")
+    ctx.check(not skipped, "main/shutdown-always", [site(ma, sh.into_bb)], "some path from the end of the engine run to the end of main skips the shutdown of the actors (e.g. the error path): spawned processes are left behind", props=["C07", "C10", "C11"])
     # the `?` on the engine result comes after the shutdown
     tries = returns_err_via_try(ma, lambda o: origin_matches(o, lambda x: x[0] == "await" and x[3] is eng))
     if not tries:
-        ctx.bad("main/result-propagated", [site(ma, eng.into_bb)], "the result of the engine run is not propagated with `?`: a failed target would exit 0")
+        ctx.bad("main/result-propagated", [site(ma, eng.into_bb)], "the result of the engine run is not propagated with `?`: a failed target would exit 0", props=["C07", "C10"])
     for (tb, ce, be) in tries:
         before = tb in (ma.reach_from(eng.ready_bb, avoid=(sh.into_bb,)) | {eng.ready_bb})
         ctx.check(tb in (ma.reach_from(sh.ready_bb) | {sh.ready_bb}) and not before, "main/result-after-shutdown", [site(ma, tb)],
-                  "the engine's error is returned before the actors are shut down")
+                  "the engine's error is returned before the actors are shut down", props=["C07", "C10", "C11"])
     # main returns block_on's value
     ok = False
-    for p in enumerate_paths(m)[:2000]:
-        ro = ret_origins(m, p)
+    mraw = f.bodies[m.name]   # main's own code: what is spliced into its view plays no part in what main returns
+    for p in enumerate_paths(mraw)[:2000]:
+        ro = ret_origins(mraw, p)
         if any(o[0] == "call" and o[1] in ("async_std::task::block_on",) for o in ro):
             ok = True
             break
-    ctx.check(ok, "main/returns-block-result", [m.loc()], "main does not return the result of the async block")
+    ctx.check(ok, "main/returns-block-result", [m.loc()], "main does not return the result of the async block", props=["C07", "C10"])
 
 
 # ------------------------------------------------------------------ C10
@@ -509,7 +510,7 @@ def sync_blocking_sites(f):
         for bb, t in b.calls():
             base = t["callee"]["base"]
             decl = callee_decl(t)
-            if SYNC_BLOCKING.match(base) or SYNC_BLOCKING.match(decl) or (base == "async_std::task::block_on" and b.coroutine):
+            if SYNC_BLOCKING.match(base) or SYNC_BLOCKING.match(decl) or base in ("async_std::task::block_on", "futures::executor::block_on", "async_std::task::Builder::blocking"):
                 out.append((b, bb, base))
     return out
 
@@ -526,16 +527,76 @@ def no_sync_blocking(ctx):
 
 
 # ------------------------------------------------------------------ C11
+def _set_ids(at):
+    """identifiers of a collection inside one body: names of the locals and of the fields it is reached through"""
+    return {("local", z[1]) for z in at if z[0] == "localname"} | {("field", z[2]) for z in at if z[0] == "field" and z[2] not in ("helper",)}
+
+
+def _some_dependency_actual(r, vb, aop, cv, ct=None):
+    """`actual` (operand aop of body vb) is the non-emptiness of a set that the actor view cv fills only under a true incoming `actual` with the
+    sender's id. When vb is a constructor helper called from cv by ct, the helper's parameters are bound to the call's arguments."""
+    l = operand_local(aop)
+    o = origins(vb, l) if l is not None else []
+    is_not_empty = origin_matches(o, lambda x: x[0] == "call" and x[1].endswith("::is_empty"), through_not=True) and any(x[0] == "not" for x in o)
+    if not is_not_empty:
+        return False, "is not the negated emptiness test of a set"
+    ids = set()
+    for x in o:
+        if x[0] == "not":
+            for y in x[1]:
+                if y[0] == "call":
+                    for a in y[3]["args"]:
+                        at = vb.prov.operand_atoms(a, interproc=False)
+                        if ct is None:
+                            ids |= _set_ids(at)
+                        else:
+                            ids |= {i for i in _set_ids(at) if i[0] == "field"}
+                            for z in at:
+                                if z[0] == "param" and z[1] - 1 < len(ct["args"]):
+                                    ids |= _set_ids(cv.prov.operand_atoms(ct["args"][z[1] - 1], interproc=False))
+    ids = {i for i in ids if i[1] not in ("unavailable_dependencies", "requesters", "self")}
+    Rok = msg_region(cv, "Ok") if cv in r.actors() else set()
+    G = guard_region(cv, lambda d: d[0] == "field" and d[1] == "actual", True)
+    found = False
+    for cb, t in cv.calls():
+        if re.search(r"HashSet::<.*>::insert$", callee_decl(t)):
+            at = cv.prov.operand_atoms(t["args"][0], interproc=False)
+            if _set_ids(at) & ids and not atom_has_field(at, "unavailable_dependencies") and not atom_has_field(at, "requesters"):
+                found = True
+                if not (cb in G and cb in Rok and msg_field_atoms("Ok", "target_id")(cv.prov.operand_atoms(t["args"][1], interproc=False))):
+                    return False, "the set is filled outside `Ok { actual: true, .. }` or with something else than the sender's id"
+    return (True, "") if found else (False, "no insertion into the tested set under a true incoming `actual`")
+
+
 @rule("C11.ACTUAL-PROVENANCE", ["C11", "C20"], """`actual` is false in foreign-kind replies, true in a target's own announcements, and for an aggregate it is 'some dependency reported actual'
       (a set filled only under a true incoming `actual`)""", "K5", floor=4)
 def actual_provenance(ctx):
     r = ctx.r
-    from rules_c01 import classify_ok_site
+    from rules_c01 import classify_ok_site, _classify_ok_site
     for (b, sites) in r.bodies_constructing("ActorInputMessage", "Ok"):
         for (bb, st) in sites:
-            idiom, why = classify_ok_site(r, b, bb, st)
             aop = agg_field_op(st, "actual")
             inst = f"{short(b.name)}@{[s[0] for s in sites].index(bb)}"
+            if not b.coroutine and b.kind in ("Fn", "AssocFn") and "ActorInputMessage" in b.ret and (st["lhs"]["local"] == 0 or 0 in b.prov.flows_forward(st["lhs"]["local"])):
+                # a constructor helper: judged at each place that asks for the message, with the helper's parameters bound to the call's arguments
+                for (cv, cbb, ct) in r.callers_of(b):
+                    kinds = set()
+                    kop = agg_field_op(st, "kind")
+                    for a in b.prov.operand_atoms(kop, interproc=False):
+                        if a[0] == "param" and a[1] - 1 < len(ct["args"]):
+                            kinds |= kind_of_operand(cv, ct["args"][a[1] - 1])
+                    kinds |= kind_of_operand(b, kop) & {"Build", "Service"}
+                    idiom, why = _classify_ok_site(r, cv, cbb, st, msg_kinds=kinds, actual=(const_val(aop) if aop else None))
+                    ci = f"{inst}/via@{short(cv.name)}"
+                    if idiom == "I2":
+                        ctx.check(is_const(aop, "false"), ci, [site(b, bb), site(cv, cbb)], "a foreign-kind reply claims an actual build/service", props=["C11"])
+                    elif idiom == "I1":
+                        ctx.check(is_const(aop, "true"), ci, [site(b, bb), site(cv, cbb)], "a target's own announcement does not say `actual: true`: a requested service would not keep zinoma alive", props=["C11"])
+                    elif idiom == "I3":
+                        ok, why3 = _some_dependency_actual(r, b, aop, cv, ct)
+                        ctx.check(ok, ci, [site(b, bb), site(cv, cbb)], "an aggregate's `actual` is not 'some dependency reported an actual build/service of this kind': " + why3, props=["C11", "C20"])
+                continue
+            idiom, why = classify_ok_site(r, b, bb, st)
             if idiom is None and b in r.actors() and r.actor_kinds(b):
                 Rreq = msg_region(b, "Requested")
                 subs = kind_subregions(b, Rreq, "Requested")
@@ -548,28 +609,12 @@ def actual_provenance(ctx):
             elif idiom == "I1":
                 ctx.check(is_const(aop, "true"), inst, [site(b, bb)], "a target's own announcement does not say `actual: true`: a requested service would not keep zinoma alive", props=["C11"])
             elif idiom == "I3":
-                # !is_empty() of a set whose insertions are under a true incoming `actual`
-                o = origins(b, operand_local(aop)) if operand_local(aop) is not None else []
-                is_not_empty = origin_matches(o, lambda x: x[0] == "call" and x[1].endswith("::is_empty"), through_not=True) and any(x[0] == "not" for x in o)
-                set_names = set()
-                for x in o:
-                    if x[0] == "not":
-                        for y in x[1]:
-                            if y[0] == "call":
-                                for a in y[3]["args"]:
-                                    set_names |= {z[1] for z in b.prov.operand_atoms(a, interproc=False) if z[0] == "localname"}
-                ins_ok = False
-                Rok = msg_region(b, "Ok") if b in r.actors() else set()
-                G = guard_region(b, lambda d: d[0] == "field" and d[1] == "actual", True)
-                for cb, t in b.calls():
-                    if re.search(r"HashSet::<.*>::insert$", callee_decl(t)):
-                        at = b.prov.operand_atoms(t["args"][0], interproc=False)
-                        if {z[1] for z in at if z[0] == "localname"} & set_names and not atom_has_field(at, "unavailable_dependencies") and not atom_has_field(at, "requesters"):
-                            ins_ok = cb in G and cb in Rok and msg_field_atoms("Ok", "target_id")(b.prov.operand_atoms(t["args"][1], interproc=False))
-                ctx.check(is_not_empty and ins_ok, inst, [site(b, bb)], "an aggregate's `actual` is not 'some dependency reported an actual build/service of this kind'", props=["C11", "C20"])
+                vb, vbb, vst = r.map_site(r.actors(), b, bb, st)
+                ok, why3 = _some_dependency_actual(r, vb, agg_field_op(vst, "actual"), vb)
+                ctx.check(ok, inst, [site(b, bb)], "an aggregate's `actual` is not 'some dependency reported an actual build/service of this kind': " + why3, props=["C11", "C20"])
 
 
-@rule("C11.KEEPALIVE-GUARD", ["C11"], """the one-shot relay keeps zinoma alive after completion exactly when a requested root reported an actual service: the service-root set is filled
+@rule("C11.KEEPALIVE-GUARD", ["C11", "C20"], """the one-shot relay keeps zinoma alive after completion exactly when a requested root reported an actual service: the service-root set is filled
       only under Ok{Service} with `actual`, and the final wait for the termination signal is guarded by that set being non-empty""", "K1", floor=2)
 def keepalive_guard(ctx):
     r = ctx.r
@@ -604,7 +649,7 @@ def keepalive_guard(ctx):
             ctx.check(w.producer[0] in Gne, f"{lab}/final-wait-guard", [site(rel, w.into_bb)], "the final wait is not guarded by `!service_roots.is_empty()`: a build-only run would never exit")
 
 
-@rule("C11.STOP-DOMINATES-SPAWN", ["C11"], """restarting a service stops the old instance (awaited) before spawning the new one""", "K1", floor=1)
+@rule("C11.STOP-DOMINATES-SPAWN", ["C11", "C10"], """restarting a service stops the old instance (awaited) before spawning the new one""", "K1", floor=1)
 def stop_dominates_spawn(ctx):
     r = ctx.r
     stops = {r.fn_of(s).name for s in stop_fns(ctx)}
